@@ -205,6 +205,14 @@ def opsPolicy (kind op : String) (args : List String) : Option String :=
     let a ← parsePolicy a; let b ← parsePolicy b; pure (showEnt (Sem.entails a b))
   | "C", "minkeys", [p] => do let p ← parsePolicy p; pure (showOptNat (Sem.minimumNKeys p))
   | "C", "nkeys", [p] => do let p ← parsePolicy p; pure (toString (Sem.nKeys p))
+  | "C", "slift", [p] => do let p ← parsePolicy p; pure (showPolicy p)   -- `Liftable for Semantic`: clone
+  | "C", "constructible", [p] => do
+    let p ← parsePolicy p; pure (if Sem.constructible p then "ok" else "refused")
+  | "C", "fromstr", [p] => do
+    let p ← parsePolicy p; pure (if Sem.threshTextAcceptable p then "ok" else "refused")
+  | "C", "cparse", [c] => do
+    -- `Concrete::from_str` of a binary-and/or policy: the grammar accepts it, `check_timelocks` decides
+    let c ← parseCPolicy c; pure (if Conc.checkTimelocks c then "ok" else "refused")
   | "C", "rtl", [p] => do let p ← parsePolicy p; pure (showNats (Sem.relativeTimelocks p))
   | "C", "atl", [p] => do let p ← parsePolicy p; pure (showNats (Sem.absoluteTimelocks p))
   | "C", "isconst", [p] => do
